@@ -549,9 +549,15 @@ struct Ctx
 {
     bool nontrivial = false;
     std::vector<std::string> cls;
+    std::vector<std::pair<std::string, std::uint64_t>> adds;
     void tag(const std::string& c)
     {
         cls.push_back(c);
+    }
+    // numeric counter (e.g. comparisons done inside one grid case)
+    void add(const std::string& c, std::uint64_t n)
+    {
+        adds.emplace_back(c, n);
     }
     void mark_nontrivial()
     {
